@@ -526,7 +526,7 @@ func (g *layerGen) op() {
 }
 
 // Generate draws a stack inside the domain of the statement: it never puts a whiteout
-// of a name and a directory of that name into one layer, no duplicate names within a layer, no explicit root entry, and an
+// of a name and a directory of that name into one layer, no duplicate names within a layer other than an identical repeated directory entry, no explicit root entry, and an
 // opaque marker in the root only in the lowest layer (where OCI gives it no effect;
 // the kernel ignores the opaque xattr of a lowerdir root).
 func Generate(rng *prng.R, o Opts) *Stack {
@@ -558,6 +558,19 @@ func Generate(rng *prng.R, o Opts) *Stack {
 		}
 		if len(g.ents) == 0 {
 			g.addNonDir(fmt.Sprintf("only%d", li), tar.TypeReg)
+		}
+		// Entry order: a share of the layers is written bottom-up (the contents of a
+		// directory precede its own entry) or repeats a directory entry after some of its
+		// children (identical copy; estargz.Build's importTar then moves the entry behind
+		// the children seen so far). Both are legal OCI layers with the same meaning.
+		switch g.rng.Intn(6) {
+		case 0, 1:
+			g.ents = bottomUp(g.ents)
+			st.Features["order-children-before-dir"]++
+		case 2, 3:
+			var n int
+			g.ents, n = repeatDirs(g.rng, g.ents)
+			st.Features["order-dir-entry-repeated"] += n
 		}
 		l := Layer{Entries: g.ents}
 		// estargz.Build moves a prioritized file together with its parents, which must
@@ -600,4 +613,72 @@ func (s *Stack) Describe() []string {
 		res = append(res, fmt.Sprintf("L%d: %s", i, gen.Describe(l.Entries)))
 	}
 	return res
+}
+
+func isUnder(c, dir string) bool { return strings.HasPrefix(c, dir+"/") }
+
+// bottomUp moves every directory entry behind its last descendant (deeper directories
+// first); all other entries keep their relative order (hardlink targets stay in front of
+// their links).
+func bottomUp(ents []gen.Entry) []gen.Entry {
+	type keyed struct {
+		e      gen.Entry
+		k1, k2 int
+	}
+	ks := make([]keyed, len(ents))
+	for i, e := range ents {
+		ks[i] = keyed{e: e, k1: i}
+		if e.Type != tar.TypeDir {
+			continue
+		}
+		c := gen.Clean(e.Name)
+		for j, o := range ents {
+			if j > ks[i].k1 && isUnder(gen.Clean(o.Name), c) {
+				ks[i].k1 = j
+			}
+		}
+		ks[i].k2 = 100 - strings.Count(c, "/")
+	}
+	sort.SliceStable(ks, func(a, b int) bool {
+		if ks[a].k1 != ks[b].k1 {
+			return ks[a].k1 < ks[b].k1
+		}
+		return ks[a].k2 < ks[b].k2
+	})
+	out := make([]gen.Entry, len(ks))
+	for i := range ks {
+		out[i] = ks[i].e
+	}
+	return out
+}
+
+// repeatDirs inserts, for about half of the directory entries that have descendants behind
+// them, an identical copy of the entry behind one of those descendants.
+func repeatDirs(rng *prng.R, ents []gen.Entry) ([]gen.Entry, int) {
+	after := map[int][]gen.Entry{}
+	n := 0
+	for i, e := range ents {
+		if e.Type != tar.TypeDir {
+			continue
+		}
+		c := gen.Clean(e.Name)
+		var desc []int
+		for j := i + 1; j < len(ents); j++ {
+			if isUnder(gen.Clean(ents[j].Name), c) {
+				desc = append(desc, j)
+			}
+		}
+		if len(desc) == 0 || rng.Bool() {
+			continue
+		}
+		j := desc[rng.Intn(len(desc))]
+		after[j] = append(after[j], e)
+		n++
+	}
+	var out []gen.Entry
+	for i, e := range ents {
+		out = append(out, e)
+		out = append(out, after[i]...)
+	}
+	return out, n
 }
